@@ -68,3 +68,349 @@ From Mxj Require Import Gen.Sites_gen GenProofs.SitesG.
 Theorem C15_sites_covered : sites_match panic_sites expected_sites = true.
 Proof. exact sites_covered. Qed.
 Print Assumptions C15_sites_covered.
+
+(* ====================================================================================================
+   H3: totality of EVERY modelled entry point.  Proofs: Proofs/C15XSeq.v (sequence decoder), Proofs/C15XSeqEnc.v
+   (decoder output is encodable, any option record), Proofs/C15XEnc.v (Map encoder), Proofs/C15XApi.v (leaf walkers,
+   key search, JSON, reader / bulk / file forms, x2j-wrapper walkers, thin wrappers), Proofs/C15XRef.v (witnesses).
+   Model functions whose result type is a plain list (leaf_nodes, paths_for_key, xw_vfkp, ...) have no Panic value:
+   the Go index / slice expressions they stand for are stated as in-range / membership facts, and the exported
+   wrappers that return (value, error) are stated as `<> Panic` relative to the codec they call.
+   ==================================================================================================== *)
+From Mxj Require Import Model.SeqDec Model.SeqEnc Model.XmlEnc Model.X2jWrap Model.Reader Model.Json Spec.SeqSpec
+  Proofs.C09P Proofs.C13Top Proofs.C15XSeq Proofs.C15XSeqEnc Proofs.C15XEnc Proofs.C15XApi Proofs.C15XRef Proofs.C15XDef.
+Import ListNotations.
+
+(* ---- 1. leaf walkers (leafnode.go) ---- *)
+(* LeafPaths / LeafValues: every index of `for i := 0; i < len(ln); i++ { ss[i] = ln[i].Path }` is inside both
+   slices, for every Map (empty keys, every value kind) and both option values *)
+Theorem C15_leaf_index_in_range : forall ap tk dotn m noattr i,
+  i < length (leaf_nodes ap tk dotn m noattr) ->
+  exists p v, nth_error (leaf_nodes ap tk dotn m noattr) i = Some (p, v) /\
+              nth_error (leaf_paths ap tk dotn m noattr) i = Some p /\
+              nth_error (leaf_values ap tk dotn m noattr) i = Some v.
+Proof. exact leaf_index_in_range. Qed.
+Print Assumptions C15_leaf_index_in_range.
+
+(* the attribute test never slices an empty key (node[:1] on the pinned tree), whatever the prefix *)
+Theorem C15_leaf_empty_key_not_attribute : forall ap noattr, skip_attr ap noattr [] = false.
+Proof. exact skip_attr_empty_key. Qed.
+Print Assumptions C15_leaf_empty_key_not_attribute.
+
+Theorem C15_leaf_nodes_empty_key : forall ap tk dotn noattr v,
+  is_scalar v = true ->
+  leaf_nodes ap tk dotn (VMap [([], v)]) noattr = [(leaf_path tk (leaf_path tk [] [] noattr) [] noattr, v)].
+Proof. exact leaf_nodes_empty_key. Qed.
+Print Assumptions C15_leaf_nodes_empty_key.
+
+(* ---- 2. key search (keyvalues.go PathsForKey / PathForKeyShortest) ---- *)
+(* paths[0] / paths[1:] are guarded: "" exactly when there is no path, else one of the paths *)
+Theorem C15_path_for_key_shortest_total : forall m k,
+  (paths_for_key m k = [] /\ path_for_key_shortest m k = []) \/
+  (paths_for_key m k <> [] /\ In (path_for_key_shortest m k) (paths_for_key m k)).
+Proof. exact path_for_key_shortest_total. Qed.
+Print Assumptions C15_path_for_key_shortest_total.
+
+(* ---- 3. the sequence decoder (xmlseq.go xmlSeqToMapParser): ALL RawToken lists, every option record, any cast
+        flag, both terminators - no hypothesis at all ---- *)
+Theorem C15_seq_decode_no_panic : forall pf skip o r tm ts, seq_decode pf skip o r ts tm <> Panic.
+Proof. exact seq_decode_no_panic. Qed.
+Print Assumptions C15_seq_decode_no_panic.
+
+(* what NewMapXmlSeqReader leaves unread is strictly shorter than what it was given *)
+Theorem C15_seq_decode_consumes : forall pf skip o r tm ts kv rest,
+  seq_decode_rest pf skip o r ts tm = Ok (kv, rest) -> length rest < length ts.
+Proof. exact seq_decode_rest_consumes. Qed.
+Print Assumptions C15_seq_decode_consumes.
+
+(* a Map it returns is a singleton {root: value} (no partial Map beside an error: the result is Ok or Err) *)
+Theorem C15_seq_decode_singleton : forall pf skip o r tm ts m,
+  seq_decode pf skip o r ts tm = Ok m -> exists k v, m = VMap [(k, v)].
+Proof. exact seq_decode_singleton. Qed.
+Print Assumptions C15_seq_decode_singleton.
+
+(* decoder output is always encodable: EVERY option record whose generated keys are pairwise distinct (true of a fresh
+   process and after SetGlobalKeyMapPrefix with any prefix that keeps them distinct), every cast flag, EVERY RawToken
+   list (malformed ones included) whose start-tag names are non-empty and none of the generated keys.
+   Strengthens C04 seq_decoded_never_panics (there: the two option records seq_o e). *)
+Theorem C15_seq_decoded_encodable : forall o, seq_keys_ok o = true ->
+  forall pf skip r ts tm m,
+    forallb (gtok_ok o) ts = true ->
+    seq_decode pf skip o r ts tm = Ok m ->
+    seq_encode o m <> Panic /\ seq_encode_indent o m <> Panic.
+Proof. exact gseq_decoded_encodable. Qed.
+Print Assumptions C15_seq_decoded_encodable.
+
+Theorem C15_seq_encode_no_panic_on_shape : forall o v k, gshape o v k = true -> senc o v k <> Panic.
+Proof. exact gsenc_nopanic. Qed.
+Print Assumptions C15_seq_encode_no_panic_on_shape.
+
+(* BeautifyXml *)
+Theorem C15_beautify_no_panic : forall pf skip o ts tm,
+  seq_keys_ok o = true -> forallb (gtok_ok o) ts = true -> beautify_items pf skip o ts tm <> Panic.
+Proof. exact beautify_no_panic. Qed.
+Print Assumptions C15_beautify_no_panic.
+
+(* the instance for the default key prefix '#': ANY other option values (casts, snake case, XMPP, escaping, trimming),
+   any cast flag, EVERY RawToken list - well nested or not - whose start-tag names are XML names (non-empty, not
+   beginning with '#'; no XML name can), either terminator *)
+Theorem C15_seq_decoded_encodable_default : forall pf skip o r ts tm m,
+  default_keys o = true -> names_ok ts = true ->
+  seq_decode pf skip o r ts tm = Ok m ->
+  seq_encode o m <> Panic /\ seq_encode_indent o m <> Panic.
+Proof. exact seq_decoded_encodable_default. Qed.
+Print Assumptions C15_seq_decoded_encodable_default.
+Theorem C15_beautify_no_panic_default : forall pf skip o ts tm,
+  default_keys o = true -> names_ok ts = true -> beautify_items pf skip o ts tm <> Panic.
+Proof. exact beautify_no_panic_default. Qed.
+Print Assumptions C15_beautify_no_panic_default.
+
+(* REFUTED without the side condition on the names - a genuine defect of the Go code (observed on /repo c7dba98):
+   after mxj.SetGlobalKeyMapPrefix("_"), NewMapXmlSeq succeeds on each of
+     <_comment><a/></_comment>     <r><_attr><x/></_attr></r>     <r><_procinst>x</_procinst><b/></r>
+   and MapSeq.Xml / MapSeq.XmlIndent / BeautifyXml PANIC on the result (mapToXmlSeqIndent: val[textK].(string),
+   a.v.(map[string]interface{}), val[targetK].(string)): with a prefix that is a legal XML name start, element names
+   collide with the generated keys.  (With the default prefix '#' no XML name can collide: C15_seq_decoded_encodable.) *)
+Theorem C15_seq_decoded_encodable_all_opts_refuted :
+  exists o, seq_keys_ok o = true /\
+    decodes_then_panics o w_comment /\ decodes_then_panics o w_attr /\ decodes_then_panics o w_procinst.
+Proof. exact seq_decoded_encodable_all_opts_refuted. Qed.
+Print Assumptions C15_seq_decoded_encodable_all_opts_refuted.
+
+(* ---- 4. the Map encoder (xml.go marshalMapToXmlIndent, Map.Xml / XmlIndent, anyxml.go AnyXml): ANY value tree,
+        any key, any option record; an unencodable attribute value is an error value ---- *)
+Theorem C15_enc_no_panic : forall o v key, enc o v key <> Panic.
+Proof. exact enc_no_panic. Qed.
+Print Assumptions C15_enc_no_panic.
+
+Theorem C15_map_xml_no_panic : forall o m rt,
+  map_xml_items o m rt <> Panic /\ map_xml_indent_items o m rt <> Panic.
+Proof. intros o m rt. split; [exact (map_xml_items_no_panic o m rt)|exact (map_xml_indent_items_no_panic o m rt)]. Qed.
+Print Assumptions C15_map_xml_no_panic.
+
+Theorem C15_any_xml_no_panic : forall o v rt et, any_xml_items o v rt et <> Panic.
+Proof. exact any_xml_items_no_panic. Qed.
+Print Assumptions C15_any_xml_no_panic.
+
+(* every Map NewMapXml returns - for any token list and decoder options - can be encoded under any options *)
+Theorem C15_decoded_map_encodable : forall pf skip o r ts tm o' m rt,
+  xml_decode pf skip o r ts tm = Ok (VMap m) ->
+  map_xml_items o' m rt <> Panic /\ map_xml_indent_items o' m rt <> Panic.
+Proof. exact decoded_map_xml. Qed.
+Print Assumptions C15_decoded_map_encodable.
+
+(* ---- 5. JSON (json.go) ---- *)
+(* getJson: every schedule of the reader, legal or not - it returns *)
+Theorem C15_get_json_total : forall sc, exists r sc', get_json sc = Some (r, sc').
+Proof. exact get_json_total. Qed.
+Print Assumptions C15_get_json_total.
+
+(* NewMapJson panics only if encoding/json's decoder does; a decoder error is returned with no Map *)
+Theorem C15_new_map_json_no_panic : forall decv b, decv b <> Panic -> new_map_json decv b <> Panic.
+Proof. exact new_map_json_no_panic. Qed.
+Print Assumptions C15_new_map_json_no_panic.
+Theorem C15_new_map_json_err : forall decv b e, b <> [] -> decv b = Err e -> new_map_json decv b = Err e.
+Proof. exact new_map_json_err. Qed.
+Print Assumptions C15_new_map_json_err.
+
+(* NewMapJsonReader / NewMapJsonReaderRaw: every schedule, every byte string *)
+Theorem C15_json_reader_total : forall decv sc, (forall b, decv b <> Panic) ->
+  exists r sc', new_map_json_reader (new_map_json decv) sc = Some (r, sc') /\ r <> Panic.
+Proof. exact json_reader_total. Qed.
+Print Assumptions C15_json_reader_total.
+Theorem C15_json_reader_raw_total : forall decv sc, (forall b, decv b <> Panic) ->
+  exists r raw sc', new_map_json_reader_raw (new_map_json decv) sc = Some (r, raw, sc') /\ r <> Panic.
+Proof. exact json_reader_raw_total. Qed.
+Print Assumptions C15_json_reader_raw_total.
+
+(* the bulk handlers and the file readers are loops around a reader function and panic only if it does *)
+Theorem C15_handle_reader_no_panic : forall next mh eh sc h,
+  next_safe next -> handle_reader next mh eh sc = Some h -> h_ret h <> Panic.
+Proof. exact handle_reader_no_panic. Qed.
+Print Assumptions C15_handle_reader_no_panic.
+Theorem C15_maps_from_file_no_panic : forall next X out,
+  next_safe next -> maps_from_file next X = Some out -> snd out <> Panic.
+Proof. exact maps_from_file_no_panic. Qed.
+Print Assumptions C15_maps_from_file_no_panic.
+Theorem C15_handle_json_no_panic : forall decv mh eh sc h, (forall b, decv b <> Panic) ->
+  (handle_json_reader (new_map_json decv) mh eh sc = Some h \/
+   handle_json_reader_raw (new_map_json decv) mh eh sc = Some h) -> h_ret h <> Panic.
+Proof. exact handle_json_no_panic. Qed.
+Print Assumptions C15_handle_json_no_panic.
+Theorem C15_maps_from_json_file_no_panic : forall decv X out, (forall b, decv b <> Panic) ->
+  new_maps_from_json_file_raw (new_map_json decv) X = Some out -> snd out <> Panic.
+Proof. exact maps_from_json_file_no_panic. Qed.
+Print Assumptions C15_maps_from_json_file_no_panic.
+
+(* the XML reader, bulk and file forms over an abstract decoder that never answers Panic *)
+Theorem C15_xml_reader_no_panic : forall (M : xmachine) sc r sc',
+  machine_safe M -> new_map_xml_reader M sc = Some (r, sc') -> r <> Panic.
+Proof. exact xml_reader_no_panic. Qed.
+Print Assumptions C15_xml_reader_no_panic.
+Theorem C15_xml_reader_raw_no_panic : forall (M : xmachine) sc r raw sc',
+  machine_safe M -> new_map_xml_reader_raw M sc = Some (r, raw, sc') -> r <> Panic.
+Proof. exact xml_reader_raw_no_panic. Qed.
+Print Assumptions C15_xml_reader_raw_no_panic.
+Theorem C15_handle_xml_no_panic : forall (M : xmachine) mh eh sc h, machine_safe M ->
+  (handle_xml_reader M mh eh sc = Some h \/ handle_xml_reader_raw M mh eh sc = Some h) -> h_ret h <> Panic.
+Proof. exact handle_xml_no_panic. Qed.
+Print Assumptions C15_handle_xml_no_panic.
+Theorem C15_maps_from_xml_file_no_panic : forall (M : xmachine) X out, machine_safe M ->
+  new_maps_from_xml_file_raw M X = Some out -> snd out <> Panic.
+Proof. exact maps_from_xml_file_no_panic. Qed.
+Print Assumptions C15_maps_from_xml_file_no_panic.
+
+(* ---- 6. x2j-wrapper walkers and the query wrappers of j2x / x2j: a panic can only come from the decoder ---- *)
+Theorem C15_xw_skip_attr_empty_key : forall ga, xw_skip_attr [] ga = false.
+Proof. exact xw_skip_attr_empty_key. Qed.
+Print Assumptions C15_xw_skip_attr_empty_key.
+
+Theorem C15_xw_walkers_no_panic : forall (NewMapXml : str -> bool -> res value) doc key path a,
+  NewMapXml doc false <> Panic ->
+  xw_ValuesForTag NewMapXml doc key <> Panic /\
+  xw_PathsForTag NewMapXml doc key <> Panic /\
+  xw_PathForTagShortest NewMapXml doc key <> Panic /\
+  xw_ValuesFromTagPath NewMapXml doc path a <> Panic /\
+  xw_ValuesAtTagPath NewMapXml doc path a <> Panic.
+Proof. exact xw_walkers_no_panic. Qed.
+Print Assumptions C15_xw_walkers_no_panic.
+
+Theorem C15_xw_reader_walkers_no_panic : forall (NewMapXmlReader : str -> bool -> res value * str) rd key path a,
+  fst (NewMapXmlReader rd false) <> Panic ->
+  fst (xw_ReaderValuesFromTagPath NewMapXmlReader rd path a) <> Panic /\
+  fst (xw_ReaderValuesForTag NewMapXmlReader rd key) <> Panic.
+Proof. exact xw_reader_walkers_no_panic. Qed.
+Print Assumptions C15_xw_reader_walkers_no_panic.
+
+Theorem C15_j2x_queries_no_panic : forall pf fieldSep attrPrefix textKey dotn (NewMapJson : str -> res value) j key path sk,
+  NewMapJson j <> Panic ->
+  j2x_JsonPathsForKey NewMapJson j key <> Panic /\
+  j2x_JsonPathForKeyShortest NewMapJson j key <> Panic /\
+  j2x_JsonValuesForKey pf fieldSep NewMapJson j key sk <> Panic /\
+  j2x_JsonValuesForKeyPath pf fieldSep NewMapJson j path sk <> Panic /\
+  j2x_JsonLeafNodes attrPrefix textKey dotn NewMapJson j <> Panic /\
+  j2x_JsonLeafValues attrPrefix textKey dotn NewMapJson j <> Panic /\
+  j2x_JsonLeafPath attrPrefix textKey dotn NewMapJson j <> Panic.
+Proof. exact j2x_queries_no_panic. Qed.
+Print Assumptions C15_j2x_queries_no_panic.
+
+Theorem C15_x2j_queries_no_panic : forall pf fieldSep attrPrefix textKey dotn (NewMapXml : str -> bool -> res value) x tag path sk,
+  NewMapXml x false <> Panic ->
+  x2j_XmlPathsForTag NewMapXml x tag <> Panic /\
+  x2j_XmlPathForTagShortest NewMapXml x tag <> Panic /\
+  x2j_XmlValuesForTag pf fieldSep NewMapXml x tag sk <> Panic /\
+  x2j_XmlValuesForPath pf fieldSep NewMapXml x path sk <> Panic /\
+  x2j_XmlLeafNodes attrPrefix textKey dotn NewMapXml x <> Panic /\
+  x2j_XmlLeafValues attrPrefix textKey dotn NewMapXml x <> Panic /\
+  x2j_XmlLeafPath attrPrefix textKey dotn NewMapXml x <> Panic.
+Proof. exact x2j_queries_no_panic. Qed.
+Print Assumptions C15_x2j_queries_no_panic.
+
+(* ValuesAtKeyPath `keys[lenKeys-1]`, set.go lastKey / parentPath: the last segment of strings.Split exists for every
+   path string and separator *)
+Theorem C15_last_segment_exists : forall c path, In (last (split1 c path) []) (split1 c path).
+Proof. exact split1_last_in. Qed.
+Print Assumptions C15_last_segment_exists.
+
+(* ---- 7. the argument parsers on every string ---- *)
+Theorem C15_parse_path_no_panic : forall path, parse_path path <> Panic.
+Proof. exact parse_path_no_panic. Qed.
+Print Assumptions C15_parse_path_no_panic.
+Theorem C15_get_sub_key_map_no_panic : forall pf sep kv, get_sub_key_map pf sep kv <> Panic.
+Proof. exact get_sub_key_map_no_panic. Qed.
+Print Assumptions C15_get_sub_key_map_no_panic.
+
+(* ---------------- non-vacuity, and malformed inputs that yield an error value rather than a panic ---------------- *)
+(* 1. a Map with empty keys, an attribute, a list holding nil and an empty map: both options, dot notation *)
+Definition ex15_m : value :=
+  VMap [(s "a", VMap [([], VInt 1); (s "-b", VStr (s "x"))]); ([], VList [VNil; VMap []])].
+Example C15_ex_leaf :
+  leaf_nodes (s "-") (s "#text") false ex15_m true = [(s "a.", VInt 1); (s "[0]", VNil)] /\
+  leaf_paths (s "-") (s "#text") true ex15_m false = [s "a."; s "a.-b"; s "0"] /\
+  path_for_key_shortest ex15_m (s "zz") = [] /\ path_for_key_shortest ex15_m [] = [].
+Proof. vm_compute. repeat split. Qed.
+
+(* 3. the hypotheses of C15_seq_decoded_encodable are met by a fresh process, by C04's option records, by a record with
+   snake case + XMPP + casts + escaping, and after SetGlobalKeyMapPrefix("_") / (""); by a stream with mixed content,
+   comment, PI, a hyphenated name, a stray end tag and a truncated element *)
+Example C15_ex_seq_hypotheses :
+  seq_keys_ok opts0 = true /\ seq_keys_ok (seq_o true) = true /\ seq_keys_ok o_snake_xmpp = true /\
+  seq_keys_ok o_us = true /\ seq_keys_ok (keyed [] opts0) = true /\
+  forallb (gtok_ok o_snake_xmpp) ts_mixed = true /\ forallb (gtok_ok o_us) ts_mixed = true.
+Proof. exact keys_ok_examples. Qed.
+Example C15_ex_seq_roundtrip :
+  match seq_decode pf0 skip0 o_snake_xmpp false ts_mixed TermEOF with
+  | Ok m => match seq_encode o_snake_xmpp m with Ok its => semit its | _ => [] end
+  | _ => []
+  end = s "<a_b k=""1"">u<c></c><!--n--><?p i?><c>2</c></a_b>".
+Proof. exact mixed_decodes_and_encodes. Qed.
+Example C15_ex_default_hypotheses :
+  default_keys opts0 = true /\ default_keys (seq_o true) = true /\ default_keys o_snake_xmpp = true /\
+  default_keys o_us = false /\ names_ok ts_mixed = true /\ names_ok w_comment = true.
+Proof. exact default_examples. Qed.
+(* o_us is the state SetGlobalKeyMapPrefix("_") reaches (generated setter), and the refutation's witnesses violate
+   exactly the side condition on names (under the default keys they satisfy it) *)
+Example C15_ex_refutation_state :
+  match Gen.Setters_gen.set_SetGlobalKeyMapPrefix Gen.Setters_gen.gstate0 (s "_") with
+  | Some st => [Gen.Setters_gen.g_textK st; Gen.Setters_gen.g_seqK st; Gen.Setters_gen.g_commentK st; Gen.Setters_gen.g_attrK st;
+                Gen.Setters_gen.g_directiveK st; Gen.Setters_gen.g_procinstK st; Gen.Setters_gen.g_targetK st; Gen.Setters_gen.g_instK st]
+               = [textK o_us; seqK o_us; commentK o_us; attrK o_us; directiveK o_us; procinstK o_us; targetK o_us; instK o_us]
+  | None => False
+  end.
+Proof. exact o_us_is_setter_state. Qed.
+Example C15_ex_refutation_side_condition :
+  forallb (gtok_ok o_us) w_comment = false /\ forallb (gtok_ok o_us) w_attr = false /\
+  forallb (gtok_ok o_us) w_procinst = false /\
+  forallb (gtok_ok opts0) w_comment = true /\ forallb (gtok_ok opts0) w_attr = true /\
+  forallb (gtok_ok opts0) w_procinst = true.
+Proof. exact witnesses_violate_side_condition. Qed.
+(* malformed sequence-XML streams: stray end tag, text then end tag, mismatched end tag, truncation under either
+   terminator, comment before the root (the documented no-root result), empty names *)
+Example C15_ex_seq_malformed :
+  seq_decode pf0 skip0 opts0 false [TEnd (xn "a")] TermEOF = Err EOther /\
+  seq_decode pf0 skip0 opts0 false [TChar (s "x"); TEnd (xn "a")] TermEOF = Err EOther /\
+  seq_decode pf0 skip0 opts0 false [TStart (xn "a") []; TStart (xn "b") []; TEnd (xn "a")] TermEOF = Err EOther /\
+  seq_decode pf0 skip0 opts0 false [TStart (xn "a") []; TChar (s "t")] TermEOF = Err EEOF /\
+  seq_decode pf0 skip0 opts0 false [TStart (xn "a") []; TChar (s "t")] TermErr = Err EOther /\
+  seq_decode pf0 skip0 opts0 false [TComment (s "c"); TStart (xn "a") []; TEnd (xn "a")] TermEOF = Err ENoRoot /\
+  seq_decode pf0 skip0 opts0 false [TStart (xn "") []; TStart (xn "") []; TEnd (xn "")] TermEOF = Err EOther.
+Proof. exact seq_malformed_examples. Qed.
+
+(* 4. an attribute whose value is a map or a list is an error value; empty keys and nil members encode *)
+Example C15_ex_enc :
+  enc opts0 (VMap [(s "-a", VMap []); (s "b", VInt 1)]) (s "r") = Err EOther /\
+  enc opts0 (VMap [(s "-a", VList [VInt 1]); (s "b", VInt 1)]) (s "r") = Err EOther /\
+  map_xml_items opts0 [([], VList [VMap [(s "-", VNil)]; VNil])] None =
+    Ok [IOpen (s "doc") []; IOpen [] []; IEmpty (s "-") []; IClose []; IEmpty [] []; IClose (s "doc")].
+Proof. vm_compute. repeat split. Qed.
+
+(* 5. JSON: a scalar document and a decoder error are error values; a lone '}' and an unterminated string on the
+   raw reader are error values with the bytes kept so far *)
+Example C15_ex_json :
+  new_map_json (fun _ => Ok (VInt 1)) (s "1") = Err EOther /\
+  new_map_json (fun _ => Err EOther) (s "{") = Err EOther /\
+  new_map_json_reader_raw (new_map_json (fun _ => Err EOther)) (file_schedule (s " {""a"":} x"))
+    = Some (Err EOther, s "{""a"":}", [Data " "%char; Data "x"%char]) /\
+  get_json [Zero; Data "}"%char] = Some (JErr [] EOther, []) /\
+  get_json (file_schedule (s "{""a"":""}")) = Some (JErr (s "{""a"":""}") EOther, []).
+Proof. vm_compute. repeat split. Qed.
+Example C15_ex_machine_safe : machine_safe toy.
+Proof. exact toy_machine_safe. Qed.
+
+(* 6. the walkers of x2j-wrapper on Maps with empty keys and on paths with empty segments *)
+Example C15_ex_xw :
+  xw_values_from (VMap [([], VInt 1); (s "-a", VInt 2)]) (s "*") false = [VInt 1] /\
+  xw_values_at (VMap [([], VMap [([], VInt 1)])]) (s ".") false = [VMap [([], VInt 1)]] /\
+  xw_values_at (VMap [(s "a", VInt 1)]) (s "a..b.") true = [].
+Proof. vm_compute. repeat split. Qed.
+
+(* 7. malformed paths and sub-key arguments are error values; an empty sub-key name is accepted *)
+Example C15_ex_parsers :
+  parse_path (s "a[-1]") = Err EOther /\ parse_path (s "a[") = Err EOther /\
+  parse_path (s "a[x]") = Err EOther /\ parse_path (s "a[99999999999]") = Err EOther /\
+  parse_path (s "a[]") = Err EOther /\
+  get_sub_key_map (fun _ => None) (s ":") [s ":x"; s "a:1:num"] = Err EOther /\
+  get_sub_key_map (fun _ => None) (s ":") [s "nocolon"] = Err EOther /\
+  get_sub_key_map (fun _ => None) (s ":") [s ":x"; s "a:true:bool"; s "!b:*"]
+    = Ok [([], VStr (s "x")); (s "a", VBool true); (s "!b", VStr (s "*"))].
+Proof. vm_compute. repeat split. Qed.
